@@ -892,6 +892,13 @@ def m_pack(I, args, kwargs):
             e = iexpr(v)
             from .intops import be_of
 
+            sdec = getattr(v, "sbe", None) if signed and isinstance(v, SInt) else None
+            if sdec is not None and len(sdec) == size:
+                bs = [BSeg(x) for x in sdec]
+                if order == "little":
+                    bs.reverse()
+                segs.extend(bs)
+                continue
             dec = be_of(v) if (not signed and not isinstance(v, (int, bool))) else None
             if dec is not None and len(dec) <= size:
                 bs = [BSeg(0)] * (size - len(dec)) + [BSeg(x) for x in dec]
@@ -1003,13 +1010,39 @@ def m_unpack(I, args, kwargs):
                 if code == "?":
                     out.append(I.sbool(e != 0))
                 elif signed:
-                    out.append(I.sint(z3.If(e >= (1 << (8 * size - 1)), e - (1 << (8 * size)), e)))
+                    r = I.sint(z3.If(e >= (1 << (8 * size - 1)), e - (1 << (8 * size)), e))
+                    if isinstance(r, SInt):
+                        # two's complement octets kept: packing the same width again needs no div/mod
+                        r.be = None
+                        r.sbe = [chunk.at(i) for i in (range(size) if order == "big" else range(size - 1, -1, -1))]
+                    out.append(r)
                 else:
                     from .intops import from_be
 
                     out.append(from_be(I, [chunk.at(i) for i in idx], nb=8 * size))
             pos = B._add(pos, size)
     return tuple(out)
+
+
+# ----------------------------------------------------------------------------- copy
+import copy as _copy  # noqa: E402
+
+
+@model(_copy.copy)
+def m_copy(I, args, kwargs):
+    (v,) = args
+    if isinstance(v, SObj):
+        r = I.lookup_class_attr(v.cls, "__copy__")
+        if r is not None and I.is_interp_func(r[0]):
+            return I.call_function(r[0], [v], {}, defcls=r[1])
+        return SObj(v.cls, dict(v.fields))  # shallow
+    if isinstance(v, SBytes):
+        return SBytes(list(v.segs), v.mutable)
+    if isinstance(v, (list, dict, set)):
+        return type(v)(v)
+    if _sym(v):
+        return v  # immutable symbolic scalars
+    return _native(I, _copy.copy, args, kwargs)
 
 
 # ----------------------------------------------------------------------------- math
